@@ -1,2 +1,5 @@
 import CB.Model.Basic
 import CB.Model.Uint
+import CB.Model.Extracted
+import CB.Lemmas.Chains
+import CB.Props.C04
